@@ -638,7 +638,71 @@ func (fx *fnExec) objInvAtReturn(st *state, x *ssa.Return) {}
 
 func (fx *fnExec) posOf(in ssa.Instruction) token.Pos { return in.Pos() }
 
-func (fx *fnExec) fieldProtoCheck(st *state, addrV ssa.Value, in ssa.Instruction, isStore bool) {}
+// fieldProtoCheck: lock/role discipline on declared struct fields (C16).
+func (fx *fnExec) fieldProtoCheck(st *state, addrV ssa.Value, in ssa.Instruction, isStore bool) {
+	fa, ok := addrV.(*ssa.FieldAddr)
+	if !ok || len(fx.g.cs.FieldProto) == 0 {
+		return
+	}
+	stT := deref(fa.X.Type())
+	n := namedOf(stT)
+	if n == nil || n.Obj().Pkg() == nil {
+		return
+	}
+	fname := structOf(stT).Field(fa.Field).Name()
+	for _, fp := range fx.g.cs.FieldProto {
+		if fp.Type != n.Obj().Name() || fp.Field != fname || fp.Pkg != n.Obj().Pkg().Path() {
+			continue
+		}
+		o := fx.operand(st, fa.X)
+		if o.addr != nil || strings.HasPrefix(o.term, "new!") {
+			return // object allocated in this activation: not yet shared
+		}
+		role := fx.ct.Role
+		if role == "init" {
+			return
+		}
+		held := "(select " + fx.ghostGet(st, "held") + " " + o.term + ")"
+		goal := ""
+		switch fp.Rule {
+		case "locked":
+			goal = held
+		case "serverlocked":
+			if isStore {
+				goal = held
+				if role != "server" {
+					goal = "false"
+				}
+			} else if role != "server" {
+				goal = held
+			}
+		case "server":
+			if role != "server" {
+				goal = "false"
+			}
+		case "tables":
+			if isStore {
+				goal = held
+			}
+		}
+		if goal == "" {
+			return
+		}
+		kind := "load"
+		if isStore {
+			kind = "store"
+		}
+		an := fx.anchorName(in)
+		if an == "" {
+			an = kind + "(" + fname + ")"
+		}
+		props := fp.Props
+		if len(props) == 0 {
+			props = []string{"C16"}
+		}
+		fx.addObl("proto", an+":"+fp.Rule, props, goal, in.Pos(), fmt.Sprintf("%s of %s.%s must follow rule '%s' (role %s)", kind, fp.Type, fp.Field, fp.Rule, role))
+	}
+}
 
 // ssaArgMap maps callee parameter names to the SSA argument values at this call site.
 func (fx *fnExec) ssaArgMap(info *calleeInfo, in ssa.Instruction) map[string]ssa.Value {
